@@ -64,6 +64,7 @@ def subspaces(tier):
     for k in KINDS:
         if k != "composite":
             out += C.structure_subspaces(D.shapes(2, 3), 2, False, canonical=True, mode="observers", kinds=[k], late=True)
+            out += C.tall_subspaces(mode="observers", kinds=[k], shapes=((7, 3),), histories=("reverse", "roundrobin"))
     fixed = [([2, 1], [[0], [1], [0]]), ([1, 1, 1], [[0], [1], [1]])]
     for sh, ms in (fixed[:1] if tier == "quick" else fixed):
         for a, b in itertools.permutations(KINDS, 2):
